@@ -453,8 +453,14 @@ class Engine:
             return
         m = re.match(r"^(\w[\w:]*)::(\w+)\((.*)\)$", rhs)
         if m and not rhs.startswith(("copy", "move", "const")):
-            # tuple-like enum/struct constructor written as a call-looking aggregate, e.g. Option::<T>::Some(x)
-            raise Unsupported("aggregate: " + rhs)
+            # tuple-like enum/struct constructor written as a call-looking aggregate, e.g. IsCa::Ca(move _5)
+            kind = m.group(1).split("::")[-1] + "::" + m.group(2)
+            ops = [self.operand(st, frame, p) for p in split_top(m.group(3)) if p]
+            if kind.startswith("DnValue::") and m.group(2) in VARIANTS and len(ops) == 1 and isinstance(ops[0], Z) and ops[0].e.sort() == DnPayload:
+                dst.v = Z(getattr(DnValue, m.group(2))(ops[0].e))      # the string kinds are a z3 datatype over the payload sort
+                return
+            dst.v = Agg(kind, [Cell(o) for o in ops])
+            return
         if re.fullmatch(r"[A-Za-z_][\w:]*::[A-Z]\w*", rhs):
             dst.v = Opaque("unit-variant", rhs)      # e.g. error::Error::IssuerNotCrlSigner
             return
@@ -561,7 +567,7 @@ class Engine:
                     self.cell_of(s2, fr2, parse_place(lhs)).v = ret
                     yield from self.run_block(fn, nxt, s2, fidx, visits)
                 return
-            m = re.match(r"^(.*?) = (.*)\((.*)\) -> \[?unwind", t)
+            m = re.match(r"^(.*?) = (.*)\((.*)\) -> (\[?unwind|bb\d+$)", t)
             if m:
                 # diverging call (no return target)
                 return
